@@ -681,7 +681,7 @@ def run(tier, seed):
                                        1000, 1001, 1500, 2000, 3000, 5000, 10000, 20000, 50000, 100000]
         depths += rng.sample(range(41, 3000), 30)
     # the inheritance-layer and lazy-container chains cost O(d) per field lookup: fewer and smaller depths
-    chain_depths = [2, 20, 41, 250, 501] if quick else [0, 1, 2, 3, 5, 8, 13, 20, 21, 40, 41, 100, 250, 499, 500, 501, 1000, 2000]
+    chain_depths = [2, 20, 41, 250] if quick else [0, 1, 2, 3, 5, 8, 13, 20, 21, 40, 41, 100, 250, 499, 500, 501, 1000, 2000]
     jobs = [(sh, d) for sh in SHAPES for d in (chain_depths if sh.startswith(("layers:", "lazy:", "tower:", "callback:")) else depths)]
     rng.shuffle(jobs)
     for a in common.pmap(shapes_shard, [(seed + i, jobs[i::32]) for i in range(32)]):
